@@ -28,6 +28,10 @@ def harness(sym):
     pc = TEMPLATES[t]
     durations = {n: sym.int(f"dur_{n}", 2, 9) for n in ("CmdA", "CmdB", "CmdC") if n in pc}
     te = sym.int("ev_tick", 1, N - 5)
+    pre = sym.shard.get("pre")                    # Pause / Hold issued two ticks before the Stop / Restart
+    then_start = sym.shard.get("then_start", False) and kind == "Stop"
+    n_ticks = N + (10 if then_start else 0)
+    started_again_at = None
     with engine_rig(sym, pc, durations=durations) as rig:
         e = rig.engine
         stop_logs = []
@@ -46,7 +50,15 @@ def harness(sym):
         run_ids = []
         done_tick = None
         marks_at_request = None
-        for i in range(N):
+        for i in range(n_ticks):
+            if pre is not None and te - 2 == i:
+                rig.user(pre)
+            if then_start and done_tick is not None and started_again_at is None and i >= done_tick + 2:
+                refused = rig.user("Start")
+                sym.check(refused is None, "start-refused-after-stop", f"Start refused {i - done_tick} ticks after Stop completed: {refused}")
+                started_again_at = i
+                marks_at_second_start = len(rig.marks())
+                uod_at_second_start = len(rig.rec.uod)
             if te == i:
                 refused = rig.user(kind)
                 sym.check(refused is None, f"{kind}-refused-while-running", f"user {kind} refused at tick {i}: {refused}")
@@ -78,6 +90,21 @@ def harness(sym):
                         sym.check(ok, f"uod-not-concluded-in-stop-runlog|after={kind}",
                                   f"{kind} at tick {te}: UOD command {name} started in the run is shown as {[(it['name'], it['state']) for it in items]} in the run log sent at stop")
         sym.check(done_tick is not None, f"{kind}-never-completed", f"{kind} requested at tick {te} did not complete within {N} ticks")
+        if started_again_at is not None:
+            # the next run starts cleanly: new run id, Running, the method runs again from its first line, nothing held over
+            sym.check(len(run_ids) == 2 and run_ids[0] != run_ids[1], "second-run-id", f"Stop at {te}, Start at {started_again_at}: run ids {run_ids}")
+            sym.check(rig.system_state in ("Running", "Paused", "Holding"), "second-run-not-running", f"System State {rig.system_state} after Start at tick {started_again_at}")
+            again = rig.marks()[marks_at_second_start:]
+            first = pc.split("\n")[0]
+            if first.startswith("Mark: "):
+                sym.check(again[:1] == [first[6:]], "second-run-did-not-start-at-first-line", f"Stop at {te}, Start at {started_again_at}: marks of the second run {again}")
+            elif first.startswith("Cmd"):
+                inits = [n for (_tt, n, _iid, ev) in rig.rec.uod[uod_at_second_start:] if ev == "init"]
+                sym.check(inits[:1] == [first], "second-run-did-not-start-at-first-line", f"Stop at {te}, Start at {started_again_at}: commands started in the second run {inits}")
+            sym.check(not e.has_error_state(), "second-run-error", f"{e.get_error_state_exception()!r}")
+            old = {iid for (tt, _n, iid, _e) in rig.rec.uod[:uod_at_second_start]}
+            late = [(tt, n, ev) for (tt, n, iid, ev) in rig.rec.uod[uod_at_second_start:] if iid in old]
+            sym.check(not late, "first-run-command-active-in-second-run", f"UOD callbacks of instances of the first run after the second Start: {late}")
         # nothing of the old run keeps executing afterwards
         if done_tick is not None:
             finals = {}
@@ -99,14 +126,21 @@ def harness(sym):
                     if "Mark: M1" in pc and pc.index("Mark: M1") < 12:
                         sym.check(first_mark in again or marks_at_request == 0, "restart-did-not-rerun-first-line",
                                   f"Restart at tick {te}: marks before {marks[:marks_at_request]}, after {again}")
-            else:
+            elif not then_start:
                 sym.check(rig.system_state == "Stopped", "stop-state", f"after Stop System State is {rig.system_state}")
         sym.note("template", t)
         sym.note("request", kind)
 
 
 def _shards(tier):
-    return [{"template": t, "kind": k} for t in TEMPLATES for k in ("Stop", "Restart")]
+    out = [{"template": t, "kind": k} for t in TEMPLATES for k in ("Stop", "Restart")]
+    if tier == "quick":
+        return out + [{"template": "uod_long", "kind": "Stop", "then_start": True}, {"template": "overlap", "kind": "Restart", "pre": "Pause"}]
+    for t in TEMPLATES:
+        out.append({"template": t, "kind": "Stop", "then_start": True})
+        for pre in ("Pause", "Hold"):
+            out += [{"template": t, "kind": "Stop", "pre": pre, "then_start": True}, {"template": t, "kind": "Restart", "pre": pre}]
+    return out
 
 
 OBLIGATIONS = [Obligation(
@@ -117,8 +151,8 @@ OBLIGATIONS = [Obligation(
              "openpectus.engine.command_manager:CommandManager._finalize_command", "openpectus.lang.exec.tags:Tag.on_stop",
              "openpectus.engine.engine:Engine._stop_interpreter", "openpectus.engine.method_manager:MethodManager.reset_interpreter"],
     symbolic="tick of the Stop/Restart request (1..9), UOD command durations 2..9 iterations each",
-    bounds={"quick": "6 templates (long + overlapping UOD commands, timed Pause, timed Hold, Simulate, UOD command in a Watch) x {Stop, Restart}, 14 ticks",
-            "thorough": "same (exhausted in the quick tier)"},
+    bounds={"quick": "6 templates (long + overlapping UOD commands, timed Pause, timed Hold, Simulate, UOD command in a Watch) x {Stop, Restart}, 14 ticks; one Stop + new Start and one Pause-then-Restart scenario",
+            "thorough": "the same, plus for every template: Stop followed by a new Start two ticks after the Stop completed (24 ticks), and Pause / Hold issued two ticks before the Stop / Restart"},
     assumptions=["one Stop/Restart per run, issued between ticks", "the run log 'sent when the run ends' is the run log obtainable in the on_stop lifetime event (what EngineRunner sends)",
                  "fake hardware; log statements removed at import"],
 )]
